@@ -325,7 +325,7 @@ type AnalyzedObjectLiteralField struct {
 func (self AnalyzedObjectLiteralField) String() string {
 	var key string
 	if !util.IsIdent(self.Key.Ident()) {
-		key = fmt.Sprintf("\"%s\"", self.Key.Ident())
+		key = fmt.Sprintf("\"%s\"", escapeHmsString(self.Key.Ident()))
 	} else {
 		key = self.Key.Ident()
 	}
